@@ -2,4 +2,5 @@ SPECIFICATION Spec
 INVARIANT TypeOK
 INVARIANT SnapsAdmitted
 INVARIANT Agreement
+VIEW MCView
 CHECK_DEADLOCK FALSE
